@@ -9,9 +9,12 @@
     HTTPProxy, the history of requests on the routes of all of them and of their files before a
     request (case CSchemes, replayed on Model/BasicSchemes.v); and whole requests - any method, any
     header map - against a route with access rules and an auth option (case CGate,
-    Model/GateRequest.v). *)
+    Model/GateRequest.v); and connections served by the real tcp.Proxy on a route with SEVERAL
+    targets whose access rules differ and whose instances may be gone (case CTcpRoute,
+    Model/TcpTargets.v). *)
 From Coq Require Import String List NArith Bool.
-From Fabio Require Import Lib.Outcome Lib.Bytes Lib.Verdict Model.Access Model.BasicReload Model.BasicSchemes Model.GateRequest.
+From Fabio Require Import Lib.Outcome Lib.Bytes Lib.Verdict Model.Access Model.BasicReload Model.BasicSchemes Model.GateRequest
+                          Model.ReloadRemoval Model.TcpTargets.
 Import ListNotations.
 Local Open Scope N_scope.
 
@@ -85,7 +88,11 @@ Inductive hstep :=
 | HsRemove                       (* the file was removed *)
 | HsBad                          (* the bad-line handler ran (seen through the standard logger): the
                                     goroutine is inside the scanner loop of ReloadFromReader *)
-| HsInForce.                     (* the newest content was seen in force (its canary user flipped) *)
+| HsInForce                      (* the newest content was seen in force (its canary user flipped) *)
+| HsSettled.                     (* the harness waited hundreds of refresh periods without touching the
+                                    file: the goroutine has nothing left to do (emitted only when the
+                                    newest content - after a removal: the lock-out - was NOT seen in
+                                    force within that time) *)
 
 Definition hist_files (init : hfile) (hist : list hstep) : list hfile :=
   init :: flat_map (fun h => match h with HsWrite c _ => [c] | _ => [] end) hist.
@@ -103,6 +110,7 @@ Definition replay_step (fuel : nat) (st : option rstate) (h : hstep) : option rs
       | HsRemove => Some (snd (rstep st ARemove))
       | HsBad => advance_until is_bad_line fuel st
       | HsInForce => advance_until is_loaded fuel st
+      | HsSettled => Some (refresher_steps fuel st)
       end
   end.
 
@@ -113,7 +121,7 @@ Definition spec_step (s : hfile * list hfile) (h : hstep) : hfile * list hfile :
   | HsWrite c _ => (fst s, c :: snd s)
   | HsRemove => (fst s, [] :: snd s)
   | HsBad => s
-  | HsInForce => match snd s with c :: _ => (c, []) | [] => s end
+  | HsInForce | HsSettled => match snd s with c :: _ => (c, []) | [] => s end
   end.
 
 (* ---- histories of a SET of basic schemes behind one HTTPProxy (Model/BasicSchemes.v) ---- *)
@@ -140,6 +148,11 @@ Definition set_replay_step (fuel : nat) (ss : option scheme_set) (h : set_step) 
       | SsFile n HsRemove => Some (snd (sstep ss (SOn n ARemove)))
       | SsFile n HsBad => sadvance_until is_bad_line fuel ss n
       | SsFile n HsInForce => sadvance_until is_loaded fuel ss n
+      | SsFile n HsSettled =>
+          match sget ss n with
+          | None => None
+          | Some s => Some (sput ss n {| sc_realm := sc_realm s; sc_st := refresher_steps fuel (sc_st s) |})
+          end
       end
   end.
 
@@ -209,7 +222,18 @@ Inductive case :=
 | CGate (e : env) (present : bool) (redirect : N) (auth : str) (cfg : schemes_cfg)
         (basic : list (str * bcreds)) (q : hrequest) (split : option str)
         (sem : list (str * option (bool * N))) (ref_admit ref_auth : bool)
-        (status rt_hits dials : N) (has_location : bool) (challenge : option str).
+        (status rt_hits dials : N) (has_location : bool) (challenge : option str)
+(* one connection served by the real tcp.Proxy.ServeTCP whose Lookup is the real Table.LookupHost
+   (rr or rnd picker) on a table built by the real route.NewTableCustom with ONE route :port and
+   SEVERAL targets, each with allow / deny options of its own: [targets] = per target its options
+   (with the library answers and the netip reading, as in CTcp), whether the instance behind it
+   accepts connections (a listener) or is gone (a bound socket that does not listen: the dial is
+   refused), and the harness's netip decision for this peer under THAT target's options;
+   [picks] = what the calls of p.Lookup returned while this connection was served, in order (index
+   of the target, None = nil); observables: [accepts] = connections each target's listener accepted,
+   [closed] = the client connection was closed when ServeTCP returned *)
+| CTcpRoute (targets : list (env * bool * bool)) (picks : list (option N)) (peer : tcp_peer)
+            (accepts : list N) (closed : bool).
 
 Definition check_case (c : case) : N :=
   match c with
@@ -476,4 +500,31 @@ Definition check_case (c : case) : N :=
                   && forallb (fun k => str_nodup (users_of (bc_file (snd k)))) cfg in
       if negb sane then v_disagree else
       verdict same spec None (present && (negb (rules_empty mr) || negb mok || negb (is_nil auth)))
+  | CTcpRoute targets picks peer accepts closed =>
+      let envs := map (fun t => fst (fst t)) targets in
+      let alive := map (fun t => snd (fst t)) targets in
+      let ref_admit := map snd targets in
+      let ts := map (fun e => fst (m_rules e)) envs in
+      let c := tconn_of peer (map (option_map N.to_nat) picks) alive in
+      let tr := serve_tcp_route ts c in
+      let idx := seq 0 (List.length targets) in
+      let m_accepts := map (accepts_of tr) idx in
+      (* the model: ONE call of Lookup, the instance of that target accepts a connection iff its own
+         rules admit the peer and it is alive, nobody else is contacted, the client is closed *)
+      let same := list_eqb N.eqb m_accepts accepts && (lookups_of tr =? N.of_nat (List.length picks)) && closed in
+      let adm := fun e => match peer with
+                          | TCPAddr (Some ip) => ref_admits (e_ref e) (canon ip)
+                          | _ => true
+                          end in
+      (* THE PROPERTY on the implementation's observables: an instance accepted a connection only if
+         the access rules of ITS target admit the peer (netip reading); at most one instance is
+         contacted.  Which target Lookup picked and which instances are gone do not occur in it. *)
+      let total := fold_right N.add 0 accepts in
+      let spec := forallb (fun p => (fst p =? 0) || snd p) (combine accepts ref_admit) && (total <=? 1) in
+      let sane := forallb (fun e => rule_queries_ok e && ref_matches e) envs
+                  && list_eqb Bool.eqb (map adm envs) ref_admit
+                  && Nat.eqb (List.length accepts) (List.length targets)
+                  && forallb (fun p => match p with Some i => i <? N.of_nat (List.length targets) | None => true end) picks in
+      if negb sane then v_disagree else
+      verdict same spec None (existsb (fun e => negb (rules_empty (fst (m_rules e))) || negb (snd (m_rules e))) envs)
   end.
